@@ -53,9 +53,57 @@ func (q sreq) msg() *dns.Msg {
 		m.SetEdns0(4096, true)
 		opt := m.IsEdns0()
 		opt.Option = append(opt.Option, &dns.EDNS0_COOKIE{Code: dns.EDNS0COOKIE, Cookie: fmt.Sprintf("%016x", uint64(q.ID)*7919)})
+	case 3, 4:
+		// The client sends its own subnet (EDNS Client Subnet); no two
+		// requests of a round send the same one.
+		m.SetEdns0(uint16(1400+int(q.ID%7)*100), q.EDNS == 4)
+		opt := m.IsEdns0()
+		opt.Option = append(opt.Option, q.ecs())
 	}
 
 	return m
+}
+
+// ecs is the EDNS Client Subnet option of q (EDNS modes 3 and 4).
+func (q sreq) ecs() *dns.EDNS0_SUBNET {
+	if q.EDNS%2 == 1 {
+		return &dns.EDNS0_SUBNET{Code: dns.EDNS0SUBNET, Family: 1, SourceNetmask: 24,
+			Address: net.IP{100, byte(64 + q.Client), byte(q.ID), 0}}
+	}
+	ip := net.ParseIP("2001:db8:aaaa::")
+	ip[6], ip[7] = byte(q.Client), byte(q.ID)
+
+	return &dns.EDNS0_SUBNET{Code: dns.EDNS0SUBNET, Family: 2, SourceNetmask: 64, Address: ip}
+}
+
+// checkECS is the identity oracle for the client subnet: every subnet option
+// of the response must be the one the request itself has sent.
+func checkECS(q sreq, resp *dns.Msg) (bad string) {
+	if resp == nil {
+		return ""
+	}
+	for _, rr := range resp.Extra {
+		opt, ok := rr.(*dns.OPT)
+		if !ok {
+			continue
+		}
+		for _, o := range opt.Option {
+			sn, ok := o.(*dns.EDNS0_SUBNET)
+			if !ok {
+				continue
+			}
+			if q.EDNS < 3 {
+				return fmt.Sprintf("response carries the client subnet %s/%d although the request has sent none", sn.Address, sn.SourceNetmask)
+			}
+			own := q.ecs()
+			if sn.Family != own.Family || sn.SourceNetmask != own.SourceNetmask || !sn.Address.Equal(own.Address) {
+				return fmt.Sprintf("response carries the client subnet %s/%d, the request has sent %s/%d", sn.Address,
+					sn.SourceNetmask, own.Address, own.SourceNetmask)
+			}
+		}
+	}
+
+	return ""
 }
 
 func clientIP(c int) netip.Addr {
@@ -105,6 +153,19 @@ func upstream() dnsserver.Handler {
 		}
 		if o := req.IsEdns0(); o != nil {
 			resp.SetEdns0(o.UDPSize(), o.Do())
+			for _, x := range o.Option {
+				// An ECS-aware upstream echoes the subnet; for half of the
+				// names the answer depends on it (scope > 0).
+				if sn, ok := x.(*dns.EDNS0_SUBNET); ok {
+					echo := *sn
+					echo.SourceScope = 0
+					if h%2 == 0 {
+						echo.SourceScope = sn.SourceNetmask
+					}
+					ro := resp.IsEdns0()
+					ro.Option = append(ro.Option, &echo)
+				}
+			}
 		}
 		b, err := resp.Pack()
 		if err != nil {
@@ -206,13 +267,30 @@ func canon(m *dns.Msg) string {
 	for _, q := range m.Question {
 		fmt.Fprintf(&sb, " q=%s/%d/%d", q.Name, q.Qtype, q.Qclass)
 	}
+	var opts strings.Builder
 	sec := func(name string, rrs []dns.RR) {
 		for _, rr := range rrs {
 			hd := rr.Header()
-			if opt, ok := rr.(*dns.OPT); ok && len(opt.Option) == 0 {
-				// An OPT without options only echoes the EDNS parameters; the
-				// caches drop it and the transport layer (normalize, below the
-				// handlers driven here) re-creates it from the request.
+			if opt, ok := rr.(*dns.OPT); ok {
+				// The transport layer (normalize, applied by serve) has set the
+				// EDNS parameters from the request.  The client subnet is
+				// checked apart (checkECS): an upstream echoes it, the ECS
+				// cache sets it anew, the other caches drop it.
+				// The DO bit is left out: normalize does not set it on an OPT
+				// that it creates itself (after a cache has dropped the
+				// upstream's), so cached and fresh responses differ in it;
+				// that is cached-vs-fresh equality, not identity.
+				// Where the OPT stands among the additional records depends on
+				// who has made it (upstream: before the debug records,
+				// normalize: last); it is rendered after the other records.
+				fmt.Fprintf(&opts, " %s{opt udp=%d ttl=%#x", name, opt.UDPSize(), opt.Hdr.Ttl&^doBit)
+				for _, o := range opt.Option {
+					if _, isSN := o.(*dns.EDNS0_SUBNET); !isSN {
+						fmt.Fprintf(&opts, " %d:%s", o.Option(), o.String())
+					}
+				}
+				opts.WriteString("}")
+
 				continue
 			}
 			ttl := hd.Ttl
@@ -235,7 +313,7 @@ func canon(m *dns.Msg) string {
 	sec("ns", m.Ns)
 	sec("ex", m.Extra)
 
-	return sb.String()
+	return sb.String() + opts.String()
 }
 
 func logKey(f *fixture) []string {
@@ -249,9 +327,9 @@ func logKey(f *fixture) []string {
 	return keys
 }
 
-// serve runs one request the way ServerBase does for plain DNS: handler,
-// write (here: render), dispose.
-func (f *fixture) serve(q sreq) (got string, err error) {
+// handle runs one request up to the point where the UDP writer of ServerBase
+// packs the response: handler, then normalize.  The response stays in use.
+func (f *fixture) handle(q sreq) (resp *dns.Msg, err error) {
 	defer func() {
 		if v := recover(); v != nil {
 			err = fmt.Errorf("panic: %v", v)
@@ -261,15 +339,44 @@ func (f *fixture) serve(q sreq) (got string, err error) {
 	out := f.st.Serve(context.Background(), &stack.Req{Server: f.srv, Msg: req,
 		Remote: netip.AddrPortFrom(clientIP(q.Client), 5353), Local: netip.MustParseAddrPort("192.0.2.2:53")})
 	if out.Err != nil {
-		return "", out.Err
+		return nil, out.Err
 	}
-	got = canon(out.Resp)
 	if out.Resp != nil {
-		if out.Resp.Id != q.ID || len(out.Resp.Question) != 1 || !strings.EqualFold(out.Resp.Question[0].Name, q.Name) {
+		dnsserver.VerifC08Normalize(dnsserver.NetworkUDP, dnsserver.ProtoDNS, req, out.Resp, dns.MaxMsgSize)
+	}
+
+	return out.Resp, nil
+}
+
+// render is what the client receives for q when resp is packed now.
+func render(q sreq, resp *dns.Msg) (got string) {
+	defer func() {
+		if v := recover(); v != nil {
+			got = fmt.Sprintf("PANIC %v", v)
+		}
+	}()
+	got = canon(resp)
+	if resp != nil {
+		if resp.Id != q.ID || len(resp.Question) != 1 || !strings.EqualFold(resp.Question[0].Name, q.Name) {
 			got = "FOREIGN " + got
 		}
+		if bad := checkECS(q, resp); bad != "" {
+			got = "FOREIGN-ECS " + bad + " " + got
+		}
 	}
-	f.cloner.Dispose(out.Resp)
+
+	return got
+}
+
+// serve runs one request the way ServerBase does for plain DNS: handler,
+// write (here: normalize and render), dispose.
+func (f *fixture) serve(q sreq) (got string, err error) {
+	resp, err := f.handle(q)
+	if err != nil {
+		return "", err
+	}
+	got = render(q, resp)
+	f.cloner.Dispose(resp)
 
 	return got, nil
 }
@@ -282,7 +389,7 @@ func genStackReqs(rng *rand.Rand, nClients, perClient int) (streams [][]sreq) {
 		var s []sreq
 		for k := 0; k < perClient; k++ {
 			id++
-			q := sreq{Client: c, Name: pool[rng.IntN(len(pool))], ID: id, EDNS: rng.IntN(3),
+			q := sreq{Client: c, Name: pool[rng.IntN(len(pool))], ID: id, EDNS: rng.IntN(5),
 				Qtype: []uint16{dns.TypeA, dns.TypeAAAA, dns.TypeTXT, dns.TypeHTTPS, dns.TypeHTTPS}[rng.IntN(5)]}
 			if rng.IntN(10) == 0 {
 				q.Chaos, q.Qtype = true, dns.TypeTXT
@@ -293,6 +400,126 @@ func genStackReqs(rng *rand.Rand, nClients, perClient int) (streams [][]sreq) {
 	}
 
 	return streams
+}
+
+// hidx names request K of client C.
+type hidx struct{ C, K int }
+
+// heldRun serves the requests named by order in one goroutine.  A response
+// stays in use, as with a slow client socket, while the next window requests
+// are served; only then it is packed and released.  It must still be what it
+// was when the handler returned it, and what the request gets alone.
+func heldRun(streams [][]sreq, want [][]string, order []hidx, window int, cache *dnssvc.CacheConfig,
+	cname string) (viols []finding, f *fixture, n int) {
+	type pending struct {
+		at    hidx
+		resp  *dns.Msg
+		early string
+	}
+	f = newFixture(cache)
+	var queue []pending
+	release := func(p pending) {
+		q := streams[p.at.C][p.at.K]
+		late := render(q, p.resp)
+		f.cloner.Dispose(p.resp)
+		n++
+		switch {
+		case late != p.early:
+			viols = append(viols, finding{"held-response-altered-while-in-use", fmt.Sprintf("cache=%s window=%d request %+v: "+
+				"when the handler returned %q, when it was written %q", cname, window, q, p.early, late)})
+		case strings.HasPrefix(late, "FOREIGN-ECS"):
+			viols = append(viols, finding{"response-client-subnet-of-another-request", fmt.Sprintf("cache=%s request %+v: %q",
+				cname, q, late)})
+		case late != want[p.at.C][p.at.K]:
+			viols = append(viols, finding{"held-response-differs-from-solo", fmt.Sprintf("cache=%s window=%d request %+v: "+
+				"alone %q, held %q", cname, window, q, want[p.at.C][p.at.K], late)})
+		}
+	}
+	for _, at := range order {
+		q := streams[at.C][at.K]
+		resp, err := f.handle(q)
+		if err != nil {
+			viols = append(viols, finding{"stack-error-held", fmt.Sprintf("request %+v: %v", q, err)})
+
+			continue
+		}
+		queue = append(queue, pending{at: at, resp: resp, early: render(q, resp)})
+		if len(queue) > window {
+			release(queue[0])
+			queue = queue[1:]
+		}
+	}
+	for _, p := range queue {
+		release(p)
+	}
+
+	return viols, f, n
+}
+
+// heldRound is heldRun on a random interleaving of the streams.
+func heldRound(rng *rand.Rand, r *hlib.Result, streams [][]sreq, want [][]string, wantLog []string,
+	cache *dnssvc.CacheConfig, cname string) {
+	var order []hidx
+	next := make([]int, len(streams))
+	for {
+		left := 0
+		for c := range streams {
+			left += len(streams[c]) - next[c]
+		}
+		if left == 0 {
+			break
+		}
+		c := rng.IntN(len(streams))
+		for next[c] == len(streams[c]) {
+			c = (c + 1) % len(streams)
+		}
+		order = append(order, hidx{c, next[c]})
+		next[c]++
+	}
+	window := 1 + rng.IntN(4)
+	r.Count(fmt.Sprintf("stack.held.window=%d", window))
+	viols, f, n := heldRun(streams, want, order, window, cache, cname)
+	r.Evaluations += n
+	for _, v := range viols {
+		known := false
+		for _, w := range r.Violations {
+			known = known || w.Signature == v.sig
+		}
+		if known {
+			continue
+		}
+		// The shortest schedule with the same kind of failure, as concrete
+		// requests.
+		small := hlib.Shrink(order, func(sub []hidx) bool {
+			vs, _, _ := heldRun(streams, want, sub, window, cache, cname)
+			for _, w := range vs {
+				if w.sig == v.sig {
+					return true
+				}
+			}
+
+			return false
+		})
+		what := v.what
+		if vs, _, _ := heldRun(streams, want, small, window, cache, cname); len(vs) > 0 {
+			for _, w := range vs {
+				if w.sig == v.sig {
+					what = w.what
+				}
+			}
+		}
+		reqs := make([]sreq, 0, len(small))
+		for _, at := range small {
+			reqs = append(reqs, streams[at.C][at.K])
+		}
+		r.Violate(v.sig, what, map[string]any{"campaign": "stack-held", "cache": cname, "window": window,
+			"requests_in_order": reqs})
+	}
+	if gotLog := logKey(f); strings.Join(gotLog, "\n") != strings.Join(wantLog, "\n") {
+		r.Violate("querylog-identity-differs-from-solo", fmt.Sprintf("cache=%s held: %d vs %d entries", cname, len(wantLog),
+			len(gotLog)), map[string]any{"campaign": "stack-held", "cache": cname, "window": window, "streams": streams,
+			"order": order})
+	}
 }
 
 func stackCampaign(o *hlib.Opts, r *hlib.Result) {
@@ -378,7 +605,9 @@ func stackCampaign(o *hlib.Opts, r *hlib.Result) {
 				r.Evaluations++
 				if got[c][k] != want[c][k] {
 					sig := "concurrent-response-differs-from-solo"
-					if strings.HasPrefix(got[c][k], "FOREIGN") {
+					if strings.HasPrefix(got[c][k], "FOREIGN-ECS") {
+						sig = "response-client-subnet-of-another-request"
+					} else if strings.HasPrefix(got[c][k], "FOREIGN") {
 						sig = "response-id-or-question-of-another-request"
 					}
 					r.Violate(sig, fmt.Sprintf("cache=%s clients=%d request %+v: alone %q, concurrently %q", cname, nClients, q,
@@ -401,6 +630,8 @@ func stackCampaign(o *hlib.Opts, r *hlib.Result) {
 			r.Violate("querylog-identity-differs-from-solo", fmt.Sprintf("cache=%s: %d vs %d entries; %s", cname, len(wantLog),
 				len(gotLog), diff), map[string]any{"campaign": "stack", "cache": cname, "streams": streams})
 		}
+		heldRound(rng, r, streams, want, wantLog, cache, cname)
+
 		var canonCase []string
 		for _, s := range streams {
 			for _, q := range s {
